@@ -168,6 +168,10 @@ class H5Machine(Machine):
 BUILTINS_TRUE = ("h5py.File", "h5py.Group")
 
 
+def norm_(d):
+    return ast.unparse(d)
+
+
 def _std_call(unset: Set[str], log: dict, fi=None):
     """call hook shared by writers and readers"""
     cls = getattr(fi, "cls", None)
@@ -175,14 +179,19 @@ def _std_call(unset: Set[str], log: dict, fi=None):
     def call(m, node, name, args, kwargs):
         short = name.split(".")[-1]
         # a static / class method of the same class, called with the group (Mesh.is_restorable(h5group)): followed in the model
-        if cls is not None and "." in name and name.split(".")[0] in (cls.name, "cls") and short in cls.methods and short != fi.node.name \
-                and any(isinstance(a, (Group, Attrs)) for a in list(args) + list(kwargs.values())):
+        if cls is not None and "." in name and name.split(".")[0] in (cls.name, "cls", "self") and name.count(".") == 1 and short in cls.methods \
+                and short != fi.node.name and short not in ("to_hdf5", "from_hdf5"):
             h = cls.methods[short].node
             decos = {getattr(d, "id", "") for d in h.decorator_list}
-            if "staticmethod" in decos:
-                return m.invoke(Closure(h, m), args, kwargs)
-            if "classmethod" in decos:
-                return m.invoke(Closure(h, m), [Opaque("cls")] + list(args), kwargs)
+            takes_group = any(isinstance(a, (Group, Attrs)) for a in list(args) + list(kwargs.values()))
+            private = short.startswith("_") and not short.startswith("__")
+            if takes_group or private:
+                if "staticmethod" in decos:
+                    return m.invoke(Closure(h, None), args, kwargs)
+                if "classmethod" in decos:
+                    return m.invoke(Closure(h, None), [Opaque("cls")] + list(args), kwargs)
+                if name.split(".")[0] == "self" and not any(norm_(d) == "property" for d in h.decorator_list):
+                    return m.invoke(Closure(h, None), [Opaque("self")] + list(args), kwargs)
         if name == "isinstance" and len(args) == 2:
             v, c = args
             if isinstance(v, Group):
